@@ -238,8 +238,8 @@ func judgeFloat(got currency.Coin, err error, r float64, argBad bool) string {
 		return ""
 	}
 	if err == nil {
-		if r == 0 && math.Signbit(r) {
-			return "" // -0.0 is accepted either way
+		if r == 0 && math.Signbit(r) && !argBad {
+			return "" // a result of -0.0 from non-negative arguments is accepted either way
 		}
 		return fmt.Sprintf("returned %d without error for a negative/NaN/infinite/too large argument or result (%v)", uint64(got), r)
 	}
